@@ -152,12 +152,15 @@ _poll_and_add_to_jobs_(struct qb_loop_source *src, int32_t ms_timeout)
 
 	qb_poll_fds_usage_check_(s);
 
-retry_poll:
-
 	event_count = epoll_wait(s->epollfd, events, MAX_EVENTS, ms_timeout);
 
 	if (errno == EINTR && event_count == -1) {
-		goto retry_poll;
+		/*
+		 * interrupted by a signal: part of the timeout has passed
+		 * already, so do not start it all over again. Nothing is
+		 * ready, the loop works out the next timeout afresh.
+		 */
+		return 0;
 	} else if (event_count == -1) {
 		return -errno;
 	}
